@@ -997,6 +997,95 @@ where
     }
 }
 
+//
+// verification hooks
+//
+#[cfg(mini_moka_verif)]
+impl<K, V, S> Cache<K, V, S>
+where
+    K: Hash + Eq,
+    S: BuildHasher + Clone,
+{
+    /// Replaces the time source of this cache with a mock clock.
+    pub fn verif_set_clock(&mut self, clock: &crate::verif::MockClock) {
+        self.expiration_clock = Some(clock.to_clock());
+    }
+
+    /// Visits every entry physically held by the hash map.
+    pub fn verif_visit_entries(&self, mut f: impl FnMut(&K, &V, crate::verif::EntryMeta)) {
+        for (k, e) in self.cache.iter() {
+            let meta = crate::verif::EntryMeta {
+                weight: e.policy_weight(),
+                last_accessed: e.last_accessed().map(|t| t.verif_std()),
+                last_modified: e.last_modified().map(|t| t.verif_std()),
+                admitted: e.access_order_q_node().is_some(),
+                dirty: false,
+                info_id: 0,
+                entry_id: e as *const ValueEntry<K, V> as usize,
+                ao_node: e
+                    .access_order_q_node()
+                    .map(|n| n.decompose_ptr() as usize)
+                    .unwrap_or(0),
+                wo_node: crate::verif::addr(e.write_order_q_node()),
+            };
+            f(k, &e.value, meta);
+        }
+    }
+
+    /// Walks a deque. `which`: 0 window, 1 probation, 2 protected, 3 write order.
+    pub fn verif_dump_deque(
+        &self,
+        which: usize,
+        mut visit: impl FnMut(&K),
+    ) -> crate::verif::DequeDump {
+        let d = &self.deques;
+        match which {
+            0 => crate::verif::dump_deque(
+                &d.window,
+                |e| (0, e.timestamp.map(|t| t.verif_std())),
+                |e| visit(&e.key),
+            ),
+            1 => crate::verif::dump_deque(
+                &d.probation,
+                |e| (0, e.timestamp.map(|t| t.verif_std())),
+                |e| visit(&e.key),
+            ),
+            2 => crate::verif::dump_deque(
+                &d.protected,
+                |e| (0, e.timestamp.map(|t| t.verif_std())),
+                |e| visit(&e.key),
+            ),
+            _ => crate::verif::dump_deque(
+                &d.write_order,
+                |e| (0, e.timestamp.map(|t| t.verif_std())),
+                |e| visit(&e.key),
+            ),
+        }
+    }
+
+    /// The popularity estimate the admission policy would use for `key`.
+    pub fn verif_freq<Q>(&self, key: &Q) -> u8
+    where
+        Rc<K>: Borrow<Q>,
+        Q: Hash + Eq + ?Sized,
+    {
+        self.frequency_sketch.frequency(self.hash(key))
+    }
+
+    pub fn verif_hash<Q>(&self, key: &Q) -> u64
+    where
+        Rc<K>: Borrow<Q>,
+        Q: Hash + Eq + ?Sized,
+    {
+        self.hash(key)
+    }
+
+    pub fn verif_sketch_state(&self) -> crate::verif::SketchState {
+        self.frequency_sketch
+            .verif_state(self.frequency_sketch_enabled)
+    }
+}
+
 #[derive(Default)]
 struct EntrySizeAndFrequency {
     weight: u64,
